@@ -254,4 +254,24 @@ theorem stuck_all_done {s : Mx} {ts : List Th} (h : WInvC (s, ts)) (hst : Stuck 
     omega
   · exact absurd hp (hnolkP t ht)
 
+/-! ## Small facts about the indicator functions, used by the property file -/
+
+theorem fHW_pos {v : V} (h : 0 < fHW v) : v.pc = .ruS ∨ v.pc = .ulS ∨ v.pc = .lkR ∨ v.pc = .lkC := by
+  obtain ⟨pc, rd, wr⟩ := v; cases pc <;> simp [fHW] at h ⊢
+
+theorem fBR_pos {v : V} (h : 0 < fBR v) : v.pc = .ulB := by
+  obtain ⟨pc, rd, wr⟩ := v; cases pc <;> simp [fBR] at h ⊢
+
+theorem quiet_flags {v : V} (h : v.inFlight = false) : fHW v = 0 ∧ fBR v = 0 ∧ fPend v = fPW v := by
+  obtain ⟨pc, rd, wr⟩ := v; cases pc <;> simp [V.inFlight, fHW, fBR, fPend, fPW] at h ⊢
+
+theorem sumV_congr {f g : V → Nat} {vs : List V} (h : ∀ v ∈ vs, f v = g v) : sumV f vs = sumV g vs := by
+  induction vs with
+  | nil => rfl
+  | cons a l ih =>
+    have ha := h a (by simp)
+    have hl := ih (fun v hv => h v (by simp [hv]))
+    simp only [sumV, List.map_cons, List.sum_cons] at hl ⊢
+    omega
+
 end Hive.SyncMutex
